@@ -122,6 +122,35 @@ package casket
 //@   ensures [nothing_serves_unless_all_bound] result != nil ==> spawned == old(spawned)
 //@   loop 1 invariant 0 <= #i && #i <= len(serverList) && opened == old(opened) + 2*#i && inst != nil && spawned == old(spawned)
 
+//@ unit start_servers_frame frames=on props=C08,C16 nilchecks=on filter=`casket\.startServers$`
+//@ // startServers for EVERY kind of start (fresh, reload with inherited listeners, upgrade): what it may write. Unit
+//@ // start_servers proves the listener accounting for a fresh start only; the lifecycle unit relies on this frame for all.
+//@ ghost opened int
+//@ ghost spawned int
+//@ func IsUpgrade
+//@   pure
+//@ extern invoke:(github.com/tmpim/casket.TCPServer).Listen
+//@   modifies ghost:opened
+//@ extern invoke:(github.com/tmpim/casket.UDPServer).ListenPacket
+//@   modifies ghost:opened
+//@ extern invoke:(github.com/tmpim/casket.GracefulServer).Address
+//@ extern invoke:(github.com/tmpim/casket.GracefulServer).WrapListener
+//@ extern os.NewFile
+//@   ensures result != nil
+//@ extern net.FileListener
+//@ extern net.FilePacketConn
+//@ extern (*os.File).Close
+//@ extern invoke:(github.com/tmpim/casket.Listener).File
+//@   ensures result1 == nil ==> result0 != nil
+//@ extern invoke:(github.com/tmpim/casket.PacketConn).File
+//@   ensures result1 == nil ==> result0 != nil
+//@ extern fmt.Errorf
+//@   ensures result != nil
+//@ func startServers
+//@   requires inst != nil
+//@   modifies ghost:opened, ghost:spawned, Instance.servers, E:ServerListener
+//@   loop 1 invariant inst != nil
+
 //@ unit restart frames=on props=C16,C08 filter=`casket\.Instance\)\.Restart$|casket\.Instance\)\.Restart\$1$`
 //@ // reload: the old instance's restart callbacks first; a failure (an error OR a panic, at any stage) runs the
 //@ // restart-failed callbacks once each, stops and shuts down nothing of the old instance, and is REPORTED to the caller
@@ -142,6 +171,7 @@ package casket
 //@ // Stop only logs what a server's Stop reports (proved in unit instance_stop): stopping the old instance cannot turn a
 //@ // reload whose successor is already serving into a reported failure
 //@ func (*Instance).Stop
+//@   requires i != nil
 //@   modifies ghost:nStop
 //@   ensures nStop == old(nStop) + 1
 //@   ensures [stop_reports_no_error] result == nil
@@ -212,6 +242,7 @@ package casket
 //@   modifies ghost:hooksPurged
 //@   ensures hooksPurged == 1
 //@ func restoreEventHooks
+//@   requires m != nil
 //@   requires [restores_the_saved_copy] m == savedHooks && m != nil
 //@   modifies ghost:hooksPurged
 //@   ensures hooksPurged == 0
